@@ -1710,5 +1710,146 @@ theorem runOps_check {busy : List Nat} : ∀ (hops : List HOp) (m : M) (seen : L
     obtain ⟨h1, h2⟩ := op_ok h op
     simp only [runOps, checkFrom, h1]
     exact ih _ _ _ _ h2
+open Casket.ReloadSpec
+
+/-- a listen step that succeeds touches only the socket of the address it is about: the new server for `x` gets a
+descriptor of the socket of `x` (when the old instance holds one: same socket identity, one more descriptor) or opens its
+own; no other address's descriptors, socket or ownership change — nothing is handed over across addresses -/
+theorem listen_per_address {m : M} {x : Nat} {todo : List Nat} (hp : m.phase = .listening (x :: todo))
+    (hok : (step m .listen).phase = .listening todo) :
+    (∀ y, y ≠ x → (step m .listen).fds y = m.fds y ∧ (step m .listen).sock y = m.sock y ∧
+        (step m .listen).new.holds y = m.new.holds y) ∧
+    (step m .listen).new.holds x = true ∧ (step m .listen).cur = m.cur ∧
+    (m.cur.holds x = true → (step m .listen).sock x = m.sock x) := by
+  by_cases h1 : m.new.holds x = true
+  · have e : step m .listen = { m with phase := .listening todo } := by simp [step, hp, h1]
+    rw [e]
+    exact ⟨fun y _ => ⟨rfl, rfl, rfl⟩, h1, rfl, fun _ => rfl⟩
+  · have h1' : m.new.holds x = false := by simpa using h1
+    by_cases h2 : m.cur.holds x = true
+    · have e : step m .listen = { m with fds := upd m.fds x (m.fds x + 1), new := { m.new with holds := set m.new.holds x true }, phase := .listening todo } := by
+        simp [step, hp, h1', h2]
+      rw [e]
+      refine ⟨fun y hy => ⟨?_, rfl, ?_⟩, ?_, rfl, fun _ => rfl⟩
+      · show upd m.fds x (m.fds x + 1) y = m.fds y; simp [upd_app, hy]
+      · show set m.new.holds x true y = m.new.holds y; simp [set_app, hy]
+      · show set m.new.holds x true x = true; simp [set_app]
+    · have h2' : m.cur.holds x = false := by simpa using h2
+      by_cases hc : (m.busy.contains x || decide (m.fds x > 0)) = true
+      · -- the listen fails: the phase would be idle, not `listening todo`
+        exfalso
+        have e : (step m .listen).phase = .idle := by
+          simp only [step, hp, h1', h2', Bool.false_eq_true, if_false]
+          rw [if_pos hc]
+        rw [e] at hok
+        cases hok
+      · have e : step m .listen = { m with fds := upd m.fds x 1, sock := upd m.sock x m.nextSock, nextSock := m.nextSock + 1, new := { m.new with holds := set m.new.holds x true }, phase := .listening todo } := by
+          simp only [step, hp, h1', h2', Bool.false_eq_true, if_false]
+          rw [if_neg hc]
+        rw [e]
+        refine ⟨fun y hy => ⟨?_, ?_, ?_⟩, ?_, rfl, fun hh => ?_⟩
+        · show upd m.fds x 1 y = m.fds y; simp [upd_app, hy]
+        · show upd m.sock x m.nextSock y = m.sock y; simp [upd_app, hy]
+        · show set m.new.holds x true y = m.new.holds y; simp [set_app, hy]
+        · show set m.new.holds x true x = true; simp [set_app]
+        · rw [h2'] at hh; exact Bool.noConfusion hh
+
+/-! ### the mixed stream: observations of a settled state -/
+
+theorem observeCells_good : ∀ (xs : List Nat) {m : M}, Good m →
+    (observeCells m xs).2 = xs.map (fun x => (b2n (m.cur.holds x), answerOf m x)) ∧
+    Good (observeCells m xs).1 ∧ ProbeFrame m (observeCells m xs).1 := by
+  intro xs
+  induction xs with
+  | nil => intro m hg; exact ⟨rfl, hg, ⟨rfl, rfl, rfl, rfl, rfl⟩⟩
+  | cons x rest ih =>
+    intro m hg
+    obtain ⟨a1, g1, f1⟩ := probe_good x hg
+    obtain ⟨r1, r2, r3⟩ := ih g1
+    refine ⟨?_, r2, probeFrame_trans f1 r3⟩
+    simp only [observeCells, List.map_cons, r1, a1, good_fds hg x]
+    congr 1
+    apply List.map_congr_left
+    intro y _
+    simp [answerOf, f1.cur]
+
+theorem cells_expected {m : M} {c : Cfg} {g : Nat} (hg : Good m) (hgen : m.cur.gen = g) (haddrs : m.cur.addrs = c.addrs)
+    (codes : List Nat) :
+    codes.map (fun x => (b2n (m.cur.holds x), answerOf m x)) = codes.map (expectedCell c g) := by
+  apply List.map_congr_left
+  intro x _
+  simp only [expectedCell, answerOf, hg.holds x, haddrs, hgen]
+  cases c.addrs.contains x <;> simp [b2n]
+
+/-- the judge's previous observation agrees with the settled state -/
+structure MRel (busy codes : List Nat) (m : M) (g : Nat) (prev : List (Nat × String)) : Prop where
+  good : Good m
+  busyEq : m.busy = busy
+  lt : m.cur.gen < g
+  prev : prev = codes.map (fun x => (b2n (m.cur.holds x), answerOf m x))
+
+theorem mixedOps_check {busy codes : List Nat} : ∀ (cs : List Cfg) (m : M) (g : Nat) (prev : List (Nat × String)),
+    MRel busy codes m g prev → mixedCheck busy codes prev g cs (mixedOps codes g m cs) = none := by
+  intro cs
+  induction cs with
+  | nil => intro m g prev _; rfl
+  | cons c rest ih =>
+    intro m g prev h
+    have hg := h.good
+    generalize hm1 : run m (reloadHead g m c ++ [.finish]) = m1
+    have e : mixedOps codes g m (c :: rest) =
+        { res := resOf m1 g, cells := (observeCells m1 codes).2, mis := false } ::
+          mixedOps codes (g + 1) (observeCells m1 codes).1 rest := by
+      simp only [mixedOps, hm1]
+    rw [e]
+    cases hv : valid busy c
+    · obtain ⟨g1, hcur, hbusy, _, _, _⟩ := reload_invalid (g := g) (c := c) hg h.lt (by rw [h.busyEq]; exact hv)
+      rw [hm1] at g1 hcur hbusy
+      obtain ⟨c1, c2, c3⟩ := observeCells_good codes g1
+      have hres : resOf m1 g = "err" := by
+        have : ¬ m1.cur.gen = g := by rw [hcur]; have := h.lt; omega
+        simp [resOf, this]
+      have hcells : (observeCells m1 codes).2 = prev := by
+        rw [c1, h.prev]
+        apply List.map_congr_left
+        intro x _
+        simp [answerOf, hcur]
+      simp only [mixedCheck, mixedStepLaw, hv, hres, hcells]
+      simp only [Bool.false_eq_true, if_false, bne_self_eq_false]
+      refine ih _ _ _ ⟨c2, by rw [c3.busy, hbusy]; exact h.busyEq, by rw [c3.cur, hcur]; have := h.lt; omega, ?_⟩
+      rw [h.prev]
+      apply List.map_congr_left
+      intro x _
+      simp [answerOf, c3.cur, hcur]
+    · obtain ⟨g1, hgen, haddrs, hbusy, _, _⟩ := reload_valid (g := g) (c := c) hg h.lt (by rw [h.busyEq]; exact hv)
+      rw [hm1] at g1 hgen haddrs hbusy
+      obtain ⟨c1, c2, c3⟩ := observeCells_good codes g1
+      have hres : resOf m1 g = "ok" := by simp [resOf, hgen]
+      have hcells : (observeCells m1 codes).2 = codes.map (expectedCell c g) := by
+        rw [c1]; exact cells_expected g1 hgen haddrs codes
+      simp only [mixedCheck, mixedStepLaw, hv, hres, hcells]
+      simp only [Bool.false_eq_true, if_false, if_true, bne_self_eq_false]
+      refine ih _ _ _ ⟨c2, by rw [c3.busy, hbusy]; exact h.busyEq, by rw [c3.cur, hgen]; omega, ?_⟩
+      rw [← hcells, c1]
+      apply List.map_congr_left
+      intro x _
+      simp [answerOf, c3.cur]
+
+/-- the mixed stream: for every start and every sequence of reloads the machine's observations satisfy the judge -/
+theorem mixed_verdict {busy codes : List Nat} {c0 : Cfg} (cs : List Cfg) (hfree : ∀ a ∈ c0.addrs, busy.contains a = false) :
+    mixedVerdict busy codes c0 cs (mixedRun busy codes c0 cs) = "ok" := by
+  have g0 : Good (M.init busy c0.addrs) := good_init busy c0.addrs hfree
+  obtain ⟨c1, c2, c3⟩ := observeCells_good codes g0
+  have hcells : (observeCells (M.init busy c0.addrs) codes).2 = codes.map (expectedCell c0 1) := by
+    rw [c1]; exact cells_expected g0 rfl rfl codes
+  have hrel : MRel busy codes (observeCells (M.init busy c0.addrs) codes).1 2 (codes.map (expectedCell c0 1)) := by
+    refine ⟨c2, by rw [c3.busy]; rfl, by rw [c3.cur]; show 1 < 2; omega, ?_⟩
+    rw [← hcells, c1]
+    apply List.map_congr_left
+    intro x _
+    simp [answerOf, c3.cur]
+  simp only [mixedVerdict, mixedRun, hcells, Bool.false_eq_true, if_false, bne_self_eq_false, Bool.or_self]
+  rw [mixedOps_check cs _ 2 _ hrel]
+
 
 end Casket.Reload
